@@ -4,7 +4,7 @@ From MV Require Import Base.Res.
 From MV Require Import Gen.OptConsts.
 From MV Require Import Opt.OptModel.
 From MV Require Import Opt.YamlSpec.
-From MV Require Import Opt.OptMarks.
-From MV Require Import Opt.OptComments.
+From MV Require Import Opt.OptMarksDef.
+From MV Require Import Opt.OptCommentsDef.
 Extraction Language OCaml.
 Extraction "model.ml" N.succ N.to_nat options_to_items tokenize print_block meaning_block wf_block error_mark options_to_items_state.
